@@ -89,7 +89,7 @@ structure Assignment where
   deriving Repr, DecidableEq
 
 inductive BindErr where
-  | tooManyPositional | multipleValues | unexpectedKeyword | missingRequired
+  | tooManyPositional | multipleValues | unexpectedKeyword | missingRequired | posOnlyAsKeyword
   deriving Repr, DecidableEq
 
 /-- Exception classes that cross the protocol. Every binding error of the language is a
@@ -151,6 +151,39 @@ def pyBind (s : Sig) (c : Call) : Except BindErr Assignment :=
   match nameArgs s c with
   | .error e => .error e
   | .ok n => complete s n
+
+/-! ### SPEC with positional-only parameters (`def f(a, b, /, c)`): the first `npo` positional
+parameters cannot be named by a keyword; such a keyword goes to `**kwargs` if declared, else the
+call is refused. -/
+
+def kwAble (npo : Nat) (s : Sig) : List Name := s.posNames.drop npo ++ s.kwNames
+
+def bindKwPO (npo : Nat) (s : Sig) (all : KW) : KW → Named → Except BindErr Named
+  | [], n => .ok n
+  | (k, v) :: r, n =>
+    if (kwAble npo s).contains k then
+      if khas n.named k then .error .multipleValues
+      else bindKwPO npo s all r { n with named := n.named ++ [(k, v)] }
+    else if s.varkw.isSome then
+      if khas n.extra k then .error .multipleValues
+      else bindKwPO npo s all r { n with extra := n.extra ++ [(k, v)] }
+    else if all.any (fun p => (s.posNames.take npo).contains p.1) then .error .posOnlyAsKeyword
+    else .error .unexpectedKeyword
+
+def nameArgsPO (npo : Nat) (s : Sig) (c : Call) : Except BindErr Named :=
+  match bindKwPO npo s c.kwargs c.kwargs ⟨s.posNames.zip c.args, c.args.drop s.pos.length, []⟩ with
+  | .error e => .error e
+  | .ok n => if !n.va.isEmpty && s.varargs.isNone then .error .tooManyPositional else .ok n
+
+def pyBindPO (npo : Nat) (s : Sig) (c : Call) : Except BindErr Assignment :=
+  match nameArgsPO npo s c with
+  | .error e => .error e
+  | .ok n => complete s n
+
+def pyCallPO (npo : Nat) (s : Sig) (c : Call) : Except PyErr Assignment :=
+  match pyBindPO npo s c with
+  | .error e => .error e.toPy
+  | .ok a => .ok a
 
 /-- Outcome as seen through the protocol / by the property: assignment or exception class. -/
 def pyCall (s : Sig) (c : Call) : Except PyErr Assignment :=
@@ -435,6 +468,14 @@ def toCall (s : Sig) (n : Named) : Call :=
   else ⟨(s.pos.filterMap fun p => kget n.named p.name) ++ n.va,
         n.named.filter (fun p => !(s.posNames.contains p.1)) ++ n.extra⟩
 
+/-- `toCall` for a signature whose first `npo` positional parameters are positional-only: those
+are passed by position also when there are no surplus positionals. -/
+def toCallPO (npo : Nat) (s : Sig) (n : Named) : Call :=
+  if n.va.isEmpty then
+    ⟨(s.pos.take npo).filterMap (fun p => kget n.named p.name),
+     n.named.filter (fun p => !((s.posNames.take npo).contains p.1)) ++ n.extra⟩
+  else toCall s n
+
 /-- Do the two argument sets overlap? (Then the functor demands `override_args`.) -/
 def conflicts (n1 n2 : Named) : Bool :=
   n2.named.any (fun p => khas n1.named p.1) || n2.extra.any (fun p => khas n1.extra p.1)
@@ -450,4 +491,14 @@ def effective (s : Sig) (c1 c2 : Call) (ignore : Bool) : Except BindErr Call :=
     | .error e => .error e
     | .ok n2 => .ok (toCall s (mergeNamed n1 n2))
 
+end Pg.C18
+
+namespace Pg.C18
+def effectivePO (npo : Nat) (s : Sig) (c1 c2 : Call) (ignore : Bool) : Except BindErr Call :=
+  match nameArgs s c1 with
+  | .error e => .error e
+  | .ok n1 =>
+    match nameArgs s (if ignore then dropExtras s c2 else c2) with
+    | .error e => .error e
+    | .ok n2 => .ok (toCallPO npo s (mergeNamed n1 n2))
 end Pg.C18
